@@ -312,7 +312,7 @@ pub fn render_dump<F: Family>(w: &mut F::W) -> String {
     s
 }
 
-impl<F: Family> Interp<F> {
+impl<F: Family + 'static> Interp<F> {
     pub fn new(out: Box<dyn std::io::Write>) -> Self {
         Interp {
             worlds: (0..4).map(|_| None).collect(),
@@ -722,6 +722,17 @@ pub fn run_case<F: Family>(it: &mut Interp<F>, name: &str, seed: u64, cfg: &GenC
         }
         let query_on = cfg.profile.contains("query");
         let r = if query_on && g.rng.below(100) < 45 { 200 + g.rng.below(100) } else { g.rng.below(130) };
+        if cfg.profile.contains("sched") && F::NAME == "Reg4" && g.rng.below(100) < 22 {
+            let all = crate::gen_sched::schedules();
+            let s = all[g.rng.below(all.len() as u64) as usize].0;
+            let e = g.epoch();
+            *it.op_hist.entry("sched").or_insert(0) += 1;
+            let r = it.exec(w, &Op::Raw("sched".into(), vec![s.to_string(), e.to_string(), "2".to_string()]));
+            let nph = r.split("phases=").nth(1).map(|p| p.split('/').count()).unwrap_or(0);
+            let nst = r.split("stages=").nth(1).and_then(|p| p.split(' ').next()).map(|p| p.split('/').count()).unwrap_or(0);
+            it.bump(if nph < nst { "sched:add-ons" } else { "sched:no-add-ons" });
+            continue;
+        }
         let res_on = cfg.profile.contains("res") && nres > 0;
         let op = if res_on && g.rng.below(100) < 25 {
             if g.rng.below(3) == 0 {
